@@ -124,6 +124,15 @@ def run(ctx, crate):
         by_variant[(wrapper, variant)].append((s, child, kind, payload))
     for (s, why) in bad_calls:
         obs.append(Ob("R01.children", WALKER, "recursive call: %s" % why, False, site=s.where))
+    # a loop over a list written out with one element (`for e in vec![x]`) runs exactly once for x: it is not a level of the tree
+    import order as O
+    singleton_heads = set()
+    for lp_ in O.loops_of_body(w):
+        it_ = lp_.iterable
+        while it_[0] == "iter":
+            it_ = it_[1]
+        if it_[0] == "agg" and it_[1] == "array" and it_[2] != "repeat" and len(it_[3]) == 1 and lp_.head is not None:
+            singleton_heads.add(lp_.head)
     # ------------------------------------------------------------ per variant obligations
     n_variants = 0
     for wrapper, ntype in sorted(tree.wrappers.items()):
@@ -186,7 +195,7 @@ def run(ctx, crate):
             for (s, c, kind, _) in got:
                 cs = rel(c, payload)
                 stars = cs.count("[*]")
-                depth = len(w.loops_of(s.bb))
+                depth = len([h_ for h_ in w.loops_of(s.bb) if h_ not in singleton_heads])
                 if depth != stars:
                     obs.append(Ob("R01.once", WALKER, "%s|%s inside %d loop(s)" % (label, cs, depth), False, site=s.where,
                                   expected="loop nesting = number of list levels on the path (%d)" % stars, found=depth))
